@@ -430,7 +430,12 @@ class SInt:
     __radd__ = __add__
 
     def __sub__(self, o):
-        # exact only when the result is known non-negative; otherwise use ZInt
+        # stays a bit-vector when the result is provably non-negative on this path; otherwise a ZInt
+        if isinstance(o, int) and not isinstance(o, bool) and o >= 0:
+            if o == 0:
+                return self
+            if o.bit_length() <= self.w and _forced(z3.UGE(self.e, z3.BitVecVal(o, self.w))):
+                return SInt(z3.simplify(self.e - z3.BitVecVal(o, self.w)), self.w)
         return self.to_zint() - (o.to_zint() if isinstance(o, SInt) else o)
 
     def __rsub__(self, o):
@@ -564,8 +569,8 @@ class STable:
         self.iw = _bl(self.n - 1)
         self.ow = max(max(_bl(v) for v in self.values), ow or 1)
         full = self.n == 1 << self.iw
-        self.linear = full and self.values[0] == 0 and all(
-            self.values[i] == self._lin(i) for i in range(self.n))
+        self.base = self.values[0]
+        self.linear = full and all(self.values[i] == self._lin(i) for i in range(self.n))   # affine: base ^ lin(i)
         self.identity = all(v == i for i, v in enumerate(self.values))
         self.arr = None
         self.opm = 0
@@ -576,8 +581,8 @@ class STable:
         r = 0
         for j in range(self.iw):
             if i >> j & 1:
-                r |= self.values[1 << j]
-        return r
+                r ^= self.values[1 << j] ^ self.values[0]
+        return r ^ self.values[0]
 
     def _array(self):
         if self.arr is None:
@@ -623,10 +628,10 @@ class STable:
                 raise Unsupported("table %s index may be out of range" % self.name)
         idx = i.ext(self.iw)
         if self.linear:
-            r = z3.BitVecVal(0, self.ow)
+            r = z3.BitVecVal(self.base, self.ow)
             for j in range(self.iw):
                 bit = z3.Extract(j, j, idx)
-                r = r | z3.If(bit == 1, z3.BitVecVal(self.values[1 << j], self.ow), z3.BitVecVal(0, self.ow))
+                r = r ^ z3.If(bit == 1, z3.BitVecVal(self.values[1 << j] ^ self.base, self.ow), z3.BitVecVal(0, self.ow))
             return SInt(z3.simplify(r), self.ow, self.opm)
         return SInt(z3.Select(self._array(), idx), self.ow, self.opm, origin=(self, i))
 
